@@ -298,7 +298,7 @@ pub fn run(ctx: &Arc<Ctx>) {
             }
         }
     }
-    let nbase = ctx.tier.pick(4usize, 16);
+    let nbase = ctx.tier.pick(4usize, 48);
     let mut forges: Vec<String> = vec!["none", "rerandomised-S", "h=0", "h=1", "h=N-1", "h=N", "h=N+1", "h=2^256-1", "h+N", "S=-S", "S=2S", "S=P1", "S=ds", "S=infinity", "S=infinity/h=H2(M||0)", "S=infinity/h=H2(M||1)", "S=off-curve(y+1)", "S=off-curve(x+1)", "S=(0,0)", "msg-bitflip", "msg-extended", "id-changed", "other-master-public-key"].iter().map(|s| s.to_string()).collect();
     for b in 0..256 {
         forges.push(format!("h-bit:{}", b));
